@@ -47,6 +47,12 @@ RowOK(r) ==
     [] r.op = "ieq"   -> \* comparison with a CANONICAL int (0 <= k < p)
                          r.r = B2N(r.a = OfInt(F, r.k))
     [] r.op = "sgn0"  -> r.r = Sgn0(F, r.a)
+    \* order of the prime-field classes (total_ordering): the order of the canonical representatives
+    [] r.op = "lt"    -> r.r = B2N(r.a[1] < r.b[1])
+    [] r.op = "le"    -> r.r = B2N(r.a[1] <= r.b[1])
+    [] r.op = "gt"    -> r.r = B2N(r.a[1] > r.b[1])
+    [] r.op = "ge"    -> r.r = B2N(r.a[1] >= r.b[1])
+    [] r.op = "int"   -> r.r = r.a[1]                      \* int(x) is the canonical representative
     [] r.op = "one"   -> r.r = One(F)
     [] r.op = "zero"  -> r.r = Zero(F)
     [] r.op = "ctor"  -> r.r = OfInt(F, r.k)      \* FQ(k) for any int k
